@@ -6,7 +6,7 @@ three run-time input vectors. IR is built from the recipe as MLIR text in generi
 Statements
   ["unit", acc, [vref per field], launch_vref|None]   full-field accfg.setup + launch + await
   ["for", {"lb": ["c", v]|["a"], "step": ["c", v]|["a"], "ub": ["a"]|["c", trips]}, body, [init vrefs], [yield vrefs]]
-  ["if", ["p", k] | ["cmp", pred, vref, vref], then, else]
+  ["if", ["p", k] | ["cmp", pred, vref, vref], then, else, [then-value vref, else-value vref]]   (5th element optional: data result)
   ["unit", acc, value refs, launch seed, [order seed, keep]]   optional 5th element: partial setup in another field order (C04 only)
   ["call", annotated, k]
   ["pure", opname, vref, vref]
@@ -166,7 +166,17 @@ def _stmts(accs, depth, max_stmts, calls=True, pure=True, carried=True, unit_wei
                                       st.tuples(st.just("cmp"), st.sampled_from(CMP_PREDS), _vref(), _vref()).map(list)))
                 th = draw(block(depth=depth - 1, budget=max(1, budget // 2)))
                 el = draw(st.one_of(st.just([]), block(depth=depth - 1, budget=max(1, budget // 2))))
-                out.append(["if", cond, th, el])
+                if carried and draw(st.integers(0, 3)) == 0:
+                    # the conditional also returns a data value (then-value, else-value); it becomes the most recent visible value
+                    out.append(["if", cond, th, el, [draw(_vref()), draw(_vref())]])
+                    if draw(st.booleans()):
+                        # and a unit right behind it uses that value
+                        u = draw(_unit(accs))
+                        if u[2]:
+                            u[2][draw(st.integers(0, len(u[2]) - 1))] = -1
+                        out.append(u)
+                else:
+                    out.append(["if", cond, th, el])
             elif k == "call":
                 out.append(["call", draw(st.booleans()), draw(st.integers(0, 1))])
             else:
@@ -376,21 +386,36 @@ def build(recipe, ty=None, extra_module_ops="", func_name="main") -> Built:
                 if inits:
                     b.features.add("carried")
             elif k == "if":
-                _, cond, th, el = s
+                _, cond, th, el = s[:4]
+                ylds = s[4] if len(s) > 4 else None
                 if cond[0] == "p":
                     c = f"%p{cond[1] % recipe['nconds']}"
                 else:
                     c = fresh("q")
                     out.append(f'{pad}{c} = "arith.cmpi"({vref(cond[2], vals)}, {vref(cond[3], vals)}) <{{predicate = {cond[1]} : i64}}> : ({ty}, {ty}) -> i1')
-                th_lines = emit_block(th, list(vals), ind + 1, depth + 1, in_loop)
-                el_lines = emit_block(el, list(vals), ind + 1, depth + 1, in_loop)
-                out.append(f'{pad}"scf.if"({c}) ({{')
-                out.extend(th_lines)
-                out.append(f'{pad}  "scf.yield"() : () -> ()')
-                out.append(f'{pad}}}, {{')
-                out.extend(el_lines)
-                out.append(f'{pad}  "scf.yield"() : () -> ()')
-                out.append(f'{pad}}}) : (i1) -> ()')
+                tvals, evals_ = list(vals), list(vals)
+                th_lines = emit_block(th, tvals, ind + 1, depth + 1, in_loop)
+                el_lines = emit_block(el, evals_, ind + 1, depth + 1, in_loop)
+                if ylds:
+                    yt, ye = vref(ylds[0], tvals), vref(ylds[1], evals_)
+                    res = fresh("r")
+                    out.append(f'{pad}{res} = "scf.if"({c}) ({{')
+                    out.extend(th_lines)
+                    out.append(f'{pad}  "scf.yield"({yt}) : ({ty}) -> ()')
+                    out.append(f'{pad}}}, {{')
+                    out.extend(el_lines)
+                    out.append(f'{pad}  "scf.yield"({ye}) : ({ty}) -> ()')
+                    out.append(f'{pad}}}) : (i1) -> ({ty})')
+                    vals.append(res)
+                    b.features.add("if_result")
+                else:
+                    out.append(f'{pad}"scf.if"({c}) ({{')
+                    out.extend(th_lines)
+                    out.append(f'{pad}  "scf.yield"() : () -> ()')
+                    out.append(f'{pad}}}, {{')
+                    out.extend(el_lines)
+                    out.append(f'{pad}  "scf.yield"() : () -> ()')
+                    out.append(f'{pad}}}) : (i1) -> ()')
                 b.features.add("if")
                 if depth >= 1:
                     b.features.add("nested")
